@@ -29,6 +29,12 @@
 //     -> A: i= w= h= nc= vi= vw= vh= vnc= vsz= | C: w= h= nc= vw= vh= vnc= vsz=
 //   img atc <T>                         dynamic_at_c.hpp: at_c<list of num_channels of the alternatives, int>(index of the held alternative)
 //     -> A: n=<at_c(a.index())> nc=<a.num_channels()> | C: n=<num_channels of T> nc=<same>
+//   img realign <T> <w> <h> <a0> (<how> <w2> <h2> <a1>)+        how = xy: recreate(w2,h2,a1);  pt: recreate(point(w2,h2),a1)
+//        the image is constructed with row alignment a0, then the SAME sequence of recreate calls is applied to the any_image
+//        and to the concrete image; after construction (l0) and after every call (l1, l2, ...) the row layout is observed:
+//        w,h (any_image members / concrete members), rs = view.pixels().row_size() in memory units (bytes; bits for bit-aligned),
+//        al = for every row (row start address in bits) mod (8*alignment of the last call), `.`-joined (0 when alignment 0)
+//     -> A: i= l0=w=..,h=..,rs=..,al=.. l1=... | C: l0=... l1=...
 #include "c14.hpp"
 #include <boost/gil/extension/dynamic_image/apply_operation.hpp>
 #include <boost/gil/extension/dynamic_image/dynamic_at_c.hpp>
@@ -227,6 +233,50 @@ std::string img_applyop(std::string const& T, std::string const& T0, std::ptrdif
     return out;
 }
 
+template <typename P> uint64_t addr_bits(P* p) { return (uint64_t)(uintptr_t)p * 8ull; }
+template <typename C, typename CS> uint64_t addr_bits(gil::planar_pixel_iterator<C, CS> const& it) { return (uint64_t)(uintptr_t)gil::at_c<0>(it) * 8ull; }
+template <typename R> uint64_t addr_bits(gil::bit_aligned_pixel_iterator<R> const& it) {
+    return (uint64_t)(uintptr_t)it.bit_range().current_byte() * 8ull + (uint64_t)it.bit_range().bit_offset(); }
+
+template <typename Img> std::string layout_of(Img const& img, std::ptrdiff_t w, std::ptrdiff_t h, unsigned al) {
+    auto v = gil::const_view(img);
+    std::string out = "w=" + std::to_string(w) + ",h=" + std::to_string(h) + ",vw=" + std::to_string(v.width()) + ",vh=" + std::to_string(v.height()) +
+                      ",rs=" + std::to_string((long long)v.pixels().row_size()) + ",al=";
+    if (v.width() <= 0 || v.height() <= 0) return out + "-";
+    for (std::ptrdiff_t y = 0; y < v.height(); ++y) {
+        uint64_t m = al > 0 ? addr_bits(v.row_begin(y)) % (8ull * al) : 0ull;
+        out += (y ? "." : "") + std::to_string(m);
+    }
+    return out;
+}
+
+std::string img_realign(std::vector<std::string> const& a) {
+    // a: img realign T w h a0 (how w2 h2 a1)+
+    if (a.size() < 10 || (a.size() - 6) % 4 != 0) return "bad-op";
+    std::string out = "bad-type";
+    std::ptrdiff_t w = hv::to_ll(a[3]), h = hv::to_ll(a[4]); unsigned a0 = (unsigned)hv::to_ull(a[5]);
+    for (size_t k = 6; k < a.size(); k += 4) if (a[k] != "xy" && a[k] != "pt") return "bad-op";
+    with_type<L7>(a[2], [&](auto tc) {
+        using Img = typename decltype(tc)::type;
+        L7 any{Img(w, h, a0)};
+        Img ci(w, h, a0);
+        auto any_layout = [&](unsigned al) {
+            return v2::visit([&](auto const& im) { return layout_of(im, any.width(), any.height(), al); }, any); };
+        std::string A = "A: i=" + std::to_string(any.index()) + " l0=" + any_layout(a0), C = "C: l0=" + layout_of(ci, ci.width(), ci.height(), a0);
+        int step = 1;
+        for (size_t k = 6; k < a.size(); k += 4, ++step) {
+            std::ptrdiff_t w2 = hv::to_ll(a[k + 1]), h2 = hv::to_ll(a[k + 2]); unsigned a1 = (unsigned)hv::to_ull(a[k + 3]);
+            if (a[k] == "xy") { any.recreate(w2, h2, a1); ci.recreate(w2, h2, a1); }
+            else { any.recreate(gil::point_t(w2, h2), a1); ci.recreate(gil::point_t(w2, h2), a1); }
+            A += " l" + std::to_string(step) + "=" + any_layout(a1);
+            C += " l" + std::to_string(step) + "=" + layout_of(ci, ci.width(), ci.height(), a1);
+        }
+        A += " i1=" + std::to_string(any.index());
+        out = A + " | " + C;
+    });
+    return out;
+}
+
 std::string img_default() {
     using First = boost::mp11::mp_first<boost::mp11::mp_rename<L7, boost::mp11::mp_list>>;
     L7 a; typename L7::view_t v;
@@ -262,6 +312,7 @@ int main() {
         if (a[1] == "assign" && a.size() == 11) return img_assign(a[2], a[3], N(4), N(5), N(6), N(7), hv::to_ull(a[8]), hv::to_ull(a[9]), a[10]);
         if (a[1] == "eq" && a.size() == 11) return img_eq(a[2], a[3], N(4), N(5), N(6), N(7), hv::to_ull(a[8]), hv::to_ull(a[9]), hv::to_ll(a[10]));
         if (a[1] == "vcopy" && a.size() == 7) return img_vcopy(a[2], a[3], N(4), N(5), hv::to_ull(a[6]));
+        if (a[1] == "realign") return img_realign(a);
         if (a[1] == "default" && a.size() == 2) return img_default();
         if (a[1] == "atc" && a.size() == 3) return img_atc(a[2]);
         if (a[1] == "vassign" && a.size() == 8) return img_vassign(a[2], a[3], N(4), N(5), hv::to_ull(a[6]), a[7]);
